@@ -1,14 +1,14 @@
 SPECIFICATION FairSpec
 CONSTANTS
   Node <- N4
-  Graphs <- Fork4
+  Graphs <- Path4
   Alpha = 2
   MaxTTL = 3
   MaxFinds = 1
   MaxInjects = 1
   MaxExpires = 0
-  MaxLosses = 1
-  MaxLinkChanges = 0
+  MaxLosses = 0
+  MaxLinkChanges = 1
   AsBuilt = FALSE
 VIEW DesignView
 INVARIANTS RecordedPathsOK InFlightPathsOK RelaySkipOK BoundedMessages
